@@ -10,11 +10,14 @@ LEVEL_TEXT = ('Kernel-checked theorems (Props/C09.v) about the Gallina models of
               'field: after relaxing row i the row equation d*x_i + sum_{j<>i} a_ij x_j = b_i holds (Gauss-Seidel), '
               'its omega-weighted forms hold for SOR and Jacobi, rows with zero diagonal and all other entries are '
               'untouched, the exact solution is a fixed point of every point sweep, k iterations are the k-fold '
-              'composition and SOR with omega=1 is Gauss-Seidel.  The same definitions evaluated at PrimFloat must '
+              'composition and SOR with omega=1 is Gauss-Seidel; for the Kaczmarz step (gauss_seidel_ne, any conjugation function) '
+              'the row product after the step is a_i.x + |a_i|^2 delta, so with Dinv = 1/|a_i|^2 the residual of row i is '
+              'multiplied by (1 - omega), entries outside the row are untouched and a vector solving every row is a fixed '
+              'point of the sweep.  The same definitions evaluated at PrimFloat must '
               'reproduce bit-for-bit what the rebuilt working-tree kernels (14 of them) and the Python driver '
               'return, and at Q exactly on dyadic inputs; a dense NumPy restatement of every splitting (all methods, '
               'sweeps, iteration counts, omegas, CSR/BSR, real/complex, single/double) is the property oracle.')
-LEVEL_NOTE = ('Exact-arithmetic theorems for the point kernels; block / normal-equation / Schwarz / polynomial variants '
+LEVEL_NOTE = ('Exact-arithmetic theorems for the point kernels and the Kaczmarz row step; block / other normal-equation / Schwarz / polynomial variants '
               'are tied by bit-exact (real double) correspondence and decided by the dense oracle.  Block inverses '
               '(pinv_array, LAPACK gelss) are contracts.  Complex and float32 data: oracle only.')
 RULE = ('random square CSR (n<=8; empty rows, missing and zero diagonals, unsorted columns) and their BSR forms; every '
@@ -25,7 +28,7 @@ RULE = ('random square CSR (n<=8; empty rows, missing and zero diagonals, unsort
         'off-diagonal entry and the sweep changes x; distinct = distinct (kind, options, input bytes).')
 TRUSTED = ['pinv_array / LAPACK gelss for block inverses (contract: pseudo-inverse of the diagonal block)',
            'SciPy tobsr/tocsr conversions, get_diagonal']
-PARTIAL = ['block, normal-equation, Schwarz and polynomial variants: model correspondence + oracle, no row-equation theorem yet',
+PARTIAL = ['block, jacobi_ne / gauss_seidel_nr, Schwarz and polynomial variants: model correspondence + oracle, no row-equation theorem yet',
            'BSR = CSR equivalence of bsr_gauss_seidel: decided by the oracle (to rounding), not proved']
 NOT_COVERED = ['chebyshev coefficients (C02 treats Chebyshev smoothing as a checked hypothesis)']
 HEADER = ('From Coq Require Import ZArith List QArith PrimFloat.\nImport ListNotations.\n'
